@@ -42,7 +42,7 @@ def rerun(path, repo, quiet=False, as_status=False):
         code = p.returncode
     except subprocess.TimeoutExpired:
         out, code = "replay timed out", 12
-    status = {10: "confirmed", 11: "disagrees", 13: "harness-error"}.get(code, "norealiser")
+    status = {10: "confirmed", 11: "disagrees", 13: "harness-error"}.get(code, "no-failure-found")
     try:
         d = json.load(open(path))
         d["replay"] = {"status": status, "output": out[-4000:]}
